@@ -52,6 +52,17 @@ PROPS = {
         'level_note': 'Trusted: Coq kernel + vm_compute, harness, verif hook; goroutine wake-ups are observed through a quiescence window (mismatches are re-run once with a 10x window before being reported); real ACK_TIMEOUT waits replaced by stamp shifting.',
         'explanation': 'Histories of Do calls, ticks at virtual times around k*ACK_TIMEOUT, ACK/RST/piggybacked/separate responses and cancellations on a real udp/client.Conn; emitted datagrams (byte-compared with the first copy) and call results compared with the model step by step; property predicate evaluated on the observed history.',
     },
+    'C12': {
+        'run_vo': 'Pool/Run.vo', 'props_vo': 'Properties/C12.vo', 'level': 'other', 'confirm': False, 'shrink': False,
+        'classes': {1: 'double-release', 2: 'released-while-application-holds-it', 3: 'content-changed-while-held',
+                    4: 'written-after-release', 5: 'handed-to-application-after-release'},
+        'trusted': ['hook message/pool (release / recycle / re-acquire notifications, poison helpers; add-only, build tag verif)',
+                    'harness/pooltrack.go: object numbering by pointer, digest of message content at hand-over and at the end of the hold'],
+        'assumptions': ['sync.Pool hands out only objects that were Put', 'the order of tracker events is the order in which the hooks took the tracker lock (a linearisation of the real events)'],
+        'level_text': 'PARTIAL. Coq theorems (Properties/C12.v): the ownership automaton accepts only traces that satisfy the property as stated (no double release, no recycling or change while the application holds a message, no use after release); the library paths as modelled (receive, receive-with-hijack, request with clone and retransmission temporaries) are accepted, and so is EVERY interleaving of accepted traces over disjoint objects. That the Go code follows no other path is established by running the monitor on complete lifecycle traces of real executions (sequential histories of C05/C06 and concurrent scenarios), not by proof.',
+        'level_note': 'Level other: theorem about the model of the paths + runtime monitoring of the real code through a verif-tagged tracker in the pool; reads after release are invisible to the tracker (only writes break the poison pattern).',
+        'explanation': 'What is proved: monitor soundness, rejection of the named violations, safety of the modelled paths and of all their interleavings (Pool/Proofs.v). What is only observed: the real lifecycle traces (release, recycle, re-acquire with poison check, application hold/unhold with content digest) of server-role histories, client-role histories and concurrent mixed scenarios are accepted by the monitor and never exceed the pool bound.',
+    },
 }
 
 NOT_APPLICABLE = {}
